@@ -1319,6 +1319,8 @@ def m_stdcell_set(I, st, fn, ce, args, line, depth, dest_ty, may_unwind):
     loc = _ptr_target(I, st, args[0])
     if loc is not None:
         I.store(st, I.add_proj(loc, 0), args[1])
+        if loc[0] == "O":
+            I.emit(st, {"k": "CELL_SET", "recv": loc_s(loc), "val": args[1]}, fn, line)
     return [("ret", UNIT, st)]
 
 
